@@ -1450,7 +1450,9 @@ pub fn gen(g: &mut Gen) {
     for (ty, text) in [("st(a:map(str))", "a={ b=1 c d }"), ("st(a:st(b:opt(map(str));d:opt(str)))", "a={ b{ c=1 } d=2 }"),
                        ("st(a:str;b:opt(str);c:opt(str))", "a=1 [[x] b=2 ] c=3"),
                        // Lean `C02_tuple_longer_paths_differ` (finding `tuple-longer-than-target`)
-                       ("st(id:u8;arr:tup(i32;i32))", "id=1 arr={ 1 2 3 }")] {
+                       ("st(id:u8;arr:tup(i32;i32))", "id=1 arr={ 1 2 3 }"),
+                       // Lean `C02_question_scalar_paths_differ` (C07_known_question_scalar: the reader takes `?` for an operator)
+                       ("st(a:str)", "a=?b\n")] {
         let ty = parse_ty(ty).unwrap();
         for (cap, sch) in [(32768usize, "-"), (8, "R1"), (16, "3,1,R5")] {
             emit_pair_with(g, Enc::U, &ty, text.as_bytes(), Some("%"), Some((cap, sch)));
